@@ -125,13 +125,20 @@ typedef struct RPEndpoint {
      * of regp_recv(): After an invalid escape sequence the decoder skips to
      * the end of the damaged frame, which may be a later call's business. */
     RFC1055Context slip;
+    /* Set when reception from a length-prefixed channel failed after part of
+     * a frame had been taken from it. Such a stream has no delimiter to look
+     * for: What it delivers next is the rest of the dropped frame, and the
+     * receiver is out of step with it for good. regp_recv() refuses to read
+     * from the channel (-EPIPE) until a channel is bound again. */
+    bool desync;
 } RPEndpoint;
 
 #define RP_ENDPOINT_NULL                        \
     { .type = RP_EP_TCP,                        \
       .source = source_empty,                   \
       .sink = sink_null,                        \
-      .slip = RFC1055_CONTEXT_INIT_DEFAULT      }
+      .slip = RFC1055_CONTEXT_INIT_DEFAULT,     \
+      .desync = false                           }
 
 typedef struct RegP {
     RPMemory memory;
